@@ -15,7 +15,7 @@ use std::collections::{HashMap, HashSet};
 pub fn def() -> PropDef {
     PropDef {
         id: "C08",
-        rule: "names: every 4-byte string over an alphabet (quick: 75 symbols = 31.6 M strings; thorough: all 128^4 ASCII) plus all strings of length 0-3 and 5 over 24 symbols, length 6 over 12 symbols and random UTF-8, each through all 10 bank-name parsers and 3 board-name parsers and compared with the reference grammar (accept set, meaning, injectivity); maps: every run number 0..=20000 plus 2^32-1, 2^32-2, powers of two +-1 and random u32: wire map = bijection 8x32 -> 256 or all-Err below 2941, PWB map = exactly 64 installed boards on the 64 cells or all-Err below 4418, (board,chip,channel) -> pad a bijection onto 32x576 (checked in full for every run number in thorough; in quick for every distinct board-placement fingerprint and both sides of every change); simulation run == run 5000 element-wise; purity of the maps: generated histories of 2-40 wire/PWB/pad lookups over 1-3 boards and 2-4 run numbers (16 boundary run numbers) on one thread and a board-major sweep (every board, every pad, all 16 run numbers back to back, both directions), every answer equal to the answer of the same lookup in a run-major sweep made on a fresh thread; geometry: wire w belongs to pad column floor(phi(w)/(2pi/32)) and each column owns exactly its 8 wires; non-trivial = accepted names, names at Hamming distance 1 from an accepted name, run numbers within +-1 of a dispatch boundary, histories in which the same board is asked at two different run numbers back to back; distinct by value",
+        rule: "names: every 4-byte string over an alphabet (quick: 75 symbols = 31.6 M strings; thorough: all 128^4 ASCII) plus all strings of length 0-3 and 5 over 24 symbols, length 6 over 12 symbols, random UTF-8 and names of 256 / 512 / 65536 +- 4 bytes built around accepted names, each through all 10 bank-name parsers and 3 board-name parsers and compared with the reference grammar (accept set, meaning, injectivity); `==` of the parsed name types over all pairs of accepted names true exactly for identical strings, board / channel ids equal exactly when their digits are; maps: every run number 0..=20000 plus 2^32-1, 2^32-2, powers of two +-1 and random u32: wire map = bijection 8x32 -> 256 or all-Err below 2941, PWB map = exactly 64 installed boards on the 64 cells or all-Err below 4418, (board,chip,channel) -> pad a bijection onto 32x576 (checked in full for every run number in thorough; in quick for every distinct board-placement fingerprint and both sides of every change); simulation run == run 5000 element-wise; purity of the maps: generated histories of 2-40 wire/PWB/pad lookups over 1-3 boards and 2-4 run numbers (16 boundary run numbers) on one thread and a board-major sweep (every board, every pad, all 16 run numbers back to back, both directions), every answer equal to the answer of the same lookup in a run-major sweep made on a fresh thread; geometry: wire w belongs to pad column floor(phi(w)/(2pi/32)) and each column owns exactly its 8 wires; non-trivial = accepted names, names at Hamming distance 1 from an accepted name, run numbers within +-1 of a dispatch boundary, histories in which the same board is asked at two different run numbers back to back; distinct by value",
         assumptions: &["golden board tables in oracles::boards are the documented ones; the library tables are cross-checked against them in every direction"],
         run,
         replay,
@@ -88,6 +88,44 @@ fn neighbours(r: &Run) {
         }
     }
     r.with_ev(|ev| ev.label_n("names:documented", names.len() as u64));
+    names_equality(r, names);
+}
+
+/// `==` of the parsed name and id types is the identity of the channel: two
+/// accepted names compare equal exactly when they are the same string, and
+/// the board / channel ids they carry compare like their documented numbers.
+fn names_equality(r: &Run, names: &[String]) {
+    use alpha_g_detector::midas::{Adc16BankName, Adc32BankName, ChronoboxBankName, PadwingBankName};
+    let n = names.len() as u64;
+    r.enumerate("names_equality", n, move |i, ev| {
+        ev.eval();
+        let a = &names[i as usize];
+        for b in names.iter() {
+            let same = a == b;
+            macro_rules! cmp {
+                ($t:ty, $what:expr) => {
+                    if let (Ok(x), Ok(y)) = (<$t>::try_from(a.as_str()), <$t>::try_from(b.as_str())) {
+                        ensure!((x == y) == same && (x != y) == !same, "name-equality", "{} {a} == {b} is {}, the names are {}", $what, x == y, if same { "the same" } else { "different" });
+                    }
+                };
+            }
+            cmp!(Adc16BankName, "Adc16BankName");
+            cmp!(Adc32BankName, "Adc32BankName");
+            cmp!(PadwingBankName, "PadwingBankName");
+            cmp!(ChronoboxBankName, "ChronoboxBankName");
+            if let (Ok(x), Ok(y)) = (Adc16BankName::try_from(a.as_str()), Adc16BankName::try_from(b.as_str())) {
+                ensure!((x.board_id() == y.board_id()) == (a[1..3] == b[1..3]) && (x.channel_id() == y.channel_id()) == (a[3..] == b[3..]), "name-equality", "ids of {a} and {b}: boards equal {}, channels equal {}", x.board_id() == y.board_id(), x.channel_id() == y.channel_id());
+            }
+            if let (Ok(x), Ok(y)) = (Adc32BankName::try_from(a.as_str()), Adc32BankName::try_from(b.as_str())) {
+                ensure!((x.board_id() == y.board_id()) == (a[1..3] == b[1..3]) && (x.channel_id() == y.channel_id()) == (a[3..] == b[3..]), "name-equality", "ids of {a} and {b}: boards equal {}, channels equal {}", x.board_id() == y.board_id(), x.channel_id() == y.channel_id());
+            }
+            if let (Ok(x), Ok(y)) = (PadwingBankName::try_from(a.as_str()), PadwingBankName::try_from(b.as_str())) {
+                ensure!((x.board_id() == y.board_id()) == same, "name-equality", "board ids of {a} and {b} compare {}", x.board_id() == y.board_id());
+            }
+        }
+        ev.nontrivial(fingerprint(&("eq", a)));
+        Ok(())
+    });
 }
 
 // ------------------------------------------------------------------ maps
@@ -547,6 +585,12 @@ fn run(r: &Run) {
         r.enumerate(&format!("names_len{len}"), n, move |i, ev| check_name(&nth_string(alpha, len, i), ev));
     }
     r.prop("names_utf8", r.tier.pick(100_000, 2_000_000), || "\\PC{0,8}|[BCPATMS][C0-9RE][0-9ABVQ][0-9A-Za-z]\\PC{0,2}|[A-Z0-9\\u{80}-\\u{7ff}]{3,5}", |s: &String, ev| check_name(s, ev));
+    r.prop("names_long", r.tier.pick(20_000, 1_000_000), names::long_name, |s: &String, ev| {
+        ev.label(if s.len() % 256 == 4 { "long-name:length 4 mod 256" } else { "long-name:other length" });
+        check_name(s, ev)?;
+        ev.nontrivial(fingerprint(s));
+        Ok(())
+    });
     // run numbers
     let full = r.tier == Tier::Thorough;
     r.enumerate("runs_0_20000", 20_001, move |i, ev| check_run(i as u32, full, ev));
@@ -601,7 +645,7 @@ fn replay(r: &Run, check: &str, case: &Value) -> Option<Outcome> {
     let i = case["index"].as_u64().unwrap_or(0);
     let mut ev = Ev::default();
     Some(match check {
-        "names_utf8" => replay_case(case, |s: &String, ev| check_name(s, ev)),
+        "names_long" | "names_utf8" => replay_case(case, |s: &String, ev| check_name(s, ev)),
         "runs_0_20000" => check_run(i as u32, true, &mut ev),
         "names_injective" => check_name(case.as_str().unwrap_or(""), &mut ev),
         "maps_call_histories" => replay_case(case, check_history),
